@@ -7,7 +7,7 @@ known_findings.json makes this or a sibling engine check report a VIOLATION (see
 """
 from harness import engine_trace as et
 
-GEN = ['States']
+GEN = ['States', 'WfGuards']
 PROPS = ['C03'] + []
 
 MANIFEST = {
